@@ -12,6 +12,8 @@ CHECKS = {
              text="Generated-program search: per-rank multisets of iput/iget/bput requests and arbitrary wait/wait_all/cancel partitions and id orders over 1-4 (8 thorough) ranks; after every call the model (each completed request applied as its blocking counterpart) is compared with inq_nreqs, statuses/id arrays, iget buffers and the whole file (and the closed file through an independent decoder). Sampling, not proof."),
  "C08": dict(level="exploration", section="4/C08", technique="property-based testing over per-rank argument-class assignments with a PMPI shadow-collective matcher as oracle",
              text="For every collective API family and k=2..4 ranks each rank gets a class (valid, zero-length, one kind of invalid argument); a PMPI shim performs a shadow Allgather before every collective the library issues and after every API step, so differing collective sequences are detected deterministically (no timing), plus return-code and stored-data oracles. Quick samples the product; thorough enumerates family x class^2 for k=2. Two known findings (record-variable put and fill_var_rec with an error on a subset of ranks) are excluded by construction and probed by replay."),
+ "C05": dict(level="exploration", section="4/C05", technique="property-based testing (Hypothesis) of multi-rank record-write histories against a per-rank record-count model, with the on-disk header field read back",
+             text="Generated histories of collective, independent and nonblocking writes to 1-3 record variables by 2-4 (8 thorough) ranks, fills, partial waits, mode switches, syncs, redefinitions and reopen; after every call every rank's inq_dimlen and (at the documented points) the numrecs field in the file are compared with a model that tracks a per-rank view; final read-back proves the highest record is readable. Decides the property through timing-independent observables; MPI progress non-determinism is not explored."),
 }
 NA_REASON = "check under construction in this session; not yet claimed"
 checks = []
